@@ -136,18 +136,24 @@ func (r *receiver) Step(c *StepCtx) {
 // ---------------------------------------------------------------- C02 pairing, silent actions
 
 type pairing struct {
-	pair map[int][2]int // held note key (alphabet index) -> (ch,pitch); pitch -1 = press produced/should produce nothing
+	pair      map[int][2]int // held note key (alphabet index) -> (ch,pitch); pitch -1 = press produced/should produce nothing
+	cnt       map[[2]int]int // holders per (ch,pitch)
+	panicHeld uint64         // keys that were down when panic fired: their release may be silent ("at most a redundant Note Off")
 }
 
-func newPairing() *pairing { return &pairing{pair: map[int][2]int{}} }
+func newPairing() *pairing { return &pairing{pair: map[int][2]int{}, cnt: map[[2]int]int{}} }
 func (p *pairing) Clone(*worker) Monitor {
 	n := newPairing()
 	for k, v := range p.pair {
 		n.pair[k] = v
 	}
+	for k, v := range p.cnt {
+		n.cnt[k] = v
+	}
+	n.panicHeld = p.panicHeld
 	return n
 }
-func (p *pairing) Key(b *strings.Builder) { fmt.Fprintf(b, "pair%v", p.pair) }
+func (p *pairing) Key(b *strings.Builder) { fmt.Fprintf(b, "pair%v%v%x", p.pair, p.cnt, p.panicHeld) }
 
 func (p *pairing) Step(c *StepCtx) {
 	sym := c.Sym
@@ -156,6 +162,9 @@ func (p *pairing) Step(c *StepCtx) {
 	}
 	if sym.Action != "" {
 		if sym.Action == "panic" && c.Ev.Val == 1 {
+			for k := range p.pair {
+				p.panicHeld |= 1 << uint(k)
+			}
 			return
 		}
 		if len(c.Msgs) > 0 {
@@ -176,11 +185,30 @@ func (p *pairing) Step(c *StepCtx) {
 			}
 		}
 		p.pair[c.Ev.Sym] = exp
+		if exp[1] >= 0 {
+			p.cnt[exp]++
+		}
 	case 0:
 		exp, had := p.pair[c.Ev.Sym]
 		delete(p.pair, c.Ev.Sym)
 		if !had {
 			exp = [2]int{-1, -1}
+		}
+		// a Note Off is due when this key is the last holder of its pitch (every release in mode off)
+		due := false
+		if exp[1] >= 0 {
+			due = c.S.D.Mode == "off" || p.cnt[exp] == 1
+			if p.cnt[exp] <= 1 {
+				delete(p.cnt, exp)
+			} else {
+				p.cnt[exp]--
+			}
+		}
+		exempt := p.panicHeld&(1<<uint(c.Ev.Sym)) != 0
+		p.panicHeld &^= 1 << uint(c.Ev.Sym)
+		if due && !exempt && len(c.Msgs) == 0 {
+			c.viol("release-without-noteoff", fmt.Sprintf("the press of %s sounded ch%d/%d and this release is the one that must end it, but no Note Off was emitted", sym.Name, exp[0]+1, exp[1]))
+			return
 		}
 		n := 0
 		for _, m := range c.Msgs {
@@ -351,38 +379,25 @@ func (p *panicMon) Clone(w *worker) Monitor {
 }
 func (p *panicMon) Step(c *StepCtx) {
 	sym := c.Sym
+	if sym.IsAxis {
+		if a := c.S.axisDesc[c.Ev.Sym]; a != nil && a.Type == "action" && a.Action == "panic" && a.ActNeg == "panic" {
+			// an axis bound to panic in both directions: deflection to at least half travel triggers it, the shadow never sees the axis
+			v := KeyEmuValue(a, c.Ev.Val)
+			half := rat(1, 2)
+			learnGate := c.Pre.Learning && new(bigRat).Abs(v).Cmp(half) <= 0
+			if new(bigRat).Abs(v).Cmp(half) >= 0 && !learnGate {
+				p.checkBurst(c)
+			} else if len(c.Msgs) > 0 {
+				c.viol("panic-axis-emits-at-rest", fmt.Sprintf("%s emitted %d messages", c.Ev.String(c.S.Alpha), len(c.Msgs)))
+			}
+			return
+		}
+	}
 	if sym.Action == "panic" {
 		if c.Ev.Val != 1 {
 			return
 		}
-		ch := c.Pre.Ch
-		seen := map[int]bool{}
-		cc := false
-		for _, m := range c.Msgs {
-			pm := parse(m)
-			switch {
-			case pm.kind == kOn:
-				c.viol("panic-starts-sound", fmt.Sprintf("panic emitted NoteOn ch%d/%d", pm.ch+1, pm.a))
-				return
-			case pm.kind == kOff && pm.ch == ch:
-				seen[pm.a] = true
-			case pm.kind == kCC && pm.ch == ch && pm.a == 123:
-				cc = true
-			}
-		}
-		if !cc {
-			c.viol("panic-no-all-notes-off", fmt.Sprintf("panic did not send All Notes Off (CC 123) on the current channel %d", ch+1))
-			return
-		}
-		if len(seen) != 128 {
-			c.viol("panic-missing-noteoffs", fmt.Sprintf("panic sent NoteOff for %d of the 128 notes on channel %d", len(seen), ch+1))
-			return
-		}
-		for i := range c.S.Alpha {
-			if c.PreDrv.Held&(1<<uint(i)) != 0 && c.S.isNoteKey(&c.S.Alpha[i]) {
-				p.panicHeld |= 1 << uint(i)
-			}
-		}
+		p.checkBurst(c)
 		return
 	}
 	// every other event also goes to the shadow
@@ -390,13 +405,13 @@ func (p *panicMon) Step(c *StepCtx) {
 	sm, _ := c.w.drain()
 	a, b := strings.Join(msgStrings(c.Msgs), ";"), strings.Join(msgStrings(sm), ";")
 	wasHeld := p.panicHeld&(1<<uint(c.Ev.Sym)) != 0
-	if c.Ev.Val == 0 {
+	if c.Ev.Val == 0 && !sym.IsAxis {
 		p.panicHeld &^= 1 << uint(c.Ev.Sym)
 	}
 	if a == b {
 		return
 	}
-	if c.Ev.Val == 0 && wasHeld {
+	if c.Ev.Val == 0 && wasHeld && !sym.IsAxis {
 		okRel := len(c.Msgs) <= 1
 		for _, m := range c.Msgs {
 			if parse(m).kind != kOff {
@@ -408,6 +423,42 @@ func (p *panicMon) Step(c *StepCtx) {
 		}
 	}
 	c.viol("panic-changes-later-behaviour", fmt.Sprintf("%s emitted %v; the same history without the panic key emits %v", c.Ev.String(c.S.Alpha), msgStrings(c.Msgs), msgStrings(sm)))
+}
+
+// checkBurst: the step must be a complete panic burst on the current channel and start no sound
+func (p *panicMon) checkBurst(c *StepCtx) {
+	{
+		{
+			ch := c.Pre.Ch
+			seen := map[int]bool{}
+			cc := false
+			for _, m := range c.Msgs {
+				pm := parse(m)
+				switch {
+				case pm.kind == kOn:
+					c.viol("panic-starts-sound", fmt.Sprintf("panic emitted NoteOn ch%d/%d", pm.ch+1, pm.a))
+					return
+				case pm.kind == kOff && pm.ch == ch:
+					seen[pm.a] = true
+				case pm.kind == kCC && pm.ch == ch && pm.a == 123:
+					cc = true
+				}
+			}
+			if !cc {
+				c.viol("panic-no-all-notes-off", fmt.Sprintf("panic did not send All Notes Off (CC 123) on the current channel %d", ch+1))
+				return
+			}
+			if len(seen) != 128 {
+				c.viol("panic-missing-noteoffs", fmt.Sprintf("panic sent NoteOff for %d of the 128 notes on channel %d", len(seen), ch+1))
+				return
+			}
+			for i := range c.S.Alpha {
+				if c.PreDrv.Held&(1<<uint(i)) != 0 && c.S.isNoteKey(&c.S.Alpha[i]) {
+					p.panicHeld |= 1 << uint(i)
+				}
+			}
+		}
+	}
 }
 
 // ---------------------------------------------------------------- C14 exit sequence
